@@ -19,11 +19,11 @@ import (
 // Output parsers (lenient, keyed on the strings the properties quote)
 
 type StatusReport struct {
-	Branch    string
-	Staged    map[string]string // path -> label (new file|modified|deleted)
-	NotStaged map[string]string // path -> label (modified|deleted)
-	Untracked map[string]bool
-	Dups      []string
+	Branch         string
+	Staged         map[string]string // path -> label (new file|modified|deleted)
+	NotStaged      map[string]string // path -> label (modified|deleted)
+	Untracked      map[string]bool
+	Dups           []string
 	HasStagedBlock bool
 }
 
@@ -178,9 +178,9 @@ func ParseLog(out string) []LogBlock {
 // Ignore model (exactly what C17 states, no more)
 
 type IgnoreRules struct {
-	Dirs  []string // "name/" lines, without the trailing slash
-	Exts  []string // "*.ext" lines, the ".ext" part
-	Exact []string // other lines (exact path from the root)
+	Dirs    []string // "name/" lines, without the trailing slash
+	Exts    []string // "*.ext" lines, the ".ext" part
+	Exact   []string // other lines (exact path from the root)
 	Present bool
 	// Unsettled: the file has lines outside the forms the statement speaks about (blank lines)
 	Unsettled bool
@@ -275,6 +275,23 @@ func CleanArg(a string) (string, bool) {
 		return "", false
 	}
 	return c, true
+}
+
+// CleanArgAt is CleanArg for a command run in sandbox sn: an absolute path inside the working
+// tree names the same thing as the relative path.
+func CleanArgAt(sn *sandbox.Snap, a string) (string, bool) {
+	if sn != nil && sn.Root != "" && strings.HasPrefix(a, "/") {
+		root := sn.Root + "/w"
+		c := path.Clean(a)
+		switch {
+		case c == root:
+			return ".", true
+		case strings.HasPrefix(c, root+"/"):
+			return c[len(root)+1:], true
+		}
+		return "", false
+	}
+	return CleanArg(a)
 }
 
 func InGoit(p string) bool { return p == ".goit" || strings.HasPrefix(p, ".goit/") }
